@@ -276,6 +276,67 @@ TABLE.update({
         "3/C16"),
 })
 
+_IR_NOTE = (
+    "Trusted: mc/irgen.py (specification -> expected snapshot / expected "
+    "message), mc/miniprotoc.py, mc/refcodec.py. IRs larger than the node "
+    "bound and more than two simultaneous boundary deviations are outside "
+    "the bound.")
+TABLE.update({
+    "C01": (
+        True, MC,
+        "exhaustive enumeration of a bounded space of IR specifications; each "
+        "executed through build -> save -> load -> save on the real code and "
+        "compared with a specification-derived oracle",
+        "Every containment shape with fan-out <= 2 and <= 9 nodes (quick; 11 "
+        "thorough) x 4 reference decorations (symbol payloads of every kind, "
+        "entry points, both expression kinds incl. payload-identical twins "
+        "with different attributes, known and unknown attribute numbers, "
+        "self-loop / parallel / labelled and unlabelled edges, AuxData at IR "
+        "and module level incl. unknown types), plus every single (thorough: "
+        "every pair of) boundary-value deviation of a 22-node base IR "
+        "(address None/0/2^64-1, int64 bounds, empty / non-ASCII / long "
+        "names, every constant of every schema enum, nil and all-ones UUIDs, "
+        "zero-sized and overlapping twin blocks), each built in 5 construction "
+        "orders. Oracle: the snapshot of the API-built IR equals the "
+        "specification's; the loaded IR's snapshot equals the original's; "
+        "deep_eq holds both ways; the re-saved message is canonically equal.",
+        _IR_NOTE, "3/C01"),
+    "C02": (
+        True, MC,
+        "exhaustive enumeration of IR specifications; writer output parsed "
+        "with descriptor classes vs schema-side expectation; reader fed "
+        "descriptor-built messages; both protobuf backends in child processes",
+        "For every specification of the C01 space (without double deviations) "
+        "and under each of the upb and pure-Python protobuf backends (each in "
+        "its own process; the evidence records api_implementation.Type()): "
+        "the bytes of save are the exact 8-byte header plus a message whose "
+        "canonical plain form (every declared field incl. defaults, "
+        "sub-message presence, oneof cases, vertex list, 16-byte UUIDs, "
+        "AuxData bytes from the reference codec) equals the one computed from "
+        "the specification alone; and six messages built directly with the "
+        "generated classes (plain, children reversed, duplicated flags, "
+        "has_address=false with a stale address, vertex list absent, vertex "
+        "list arbitrary) load into IRs whose snapshot equals the "
+        "specification. Enum constants come from the descriptors, so a "
+        "constant missing from a Python Enum is reported.",
+        _IR_NOTE, "3/C02"),
+    "C09": (
+        True, MC,
+        "exhaustive enumeration of loadable files and of single reference "
+        "faults; identity oracle over the containment index",
+        "Every specification of the C01 space is loaded from the API "
+        "writer's bytes (twice: the two loads must share no object) and from "
+        "a descriptor-built message; symbol referents, entry points, edge "
+        "endpoints, expression symbols and AuxData UUID/Offset entries (IR "
+        "and module level) must be the very objects reached through "
+        "containment, unattached UUIDs plain UUID values - also after another "
+        "IR that merely mentions the same UUIDs was loaded and read, which in "
+        "turn must get plain UUIDs. Fault side: every reference field of 7 "
+        "base messages (thorough 41) retargeted to a fresh UUID and to one "
+        "node of every wrong kind must raise DeserializationError.",
+        _IR_NOTE, "3/C09"),
+})
+
 PENDING = [
     "C01", "C02", "C03", "C04", "C05", "C06", "C07", "C08", "C09", "C10",
     "C11", "C12", "C13", "C14", "C16", "C17", "C18", "C19",
